@@ -56,6 +56,19 @@ class HtmlObj:
     __repr__ = __str__
 
 
+class StrObj:
+    """An arbitrary object whose string form is chosen by the case (no __html__: not trusted)."""
+
+    def __init__(self, text):
+        self.text = text
+
+    def __str__(self):
+        return self.text
+
+    def __repr__(self):
+        return "StrObj(%r)" % self.text
+
+
 def dec(v):
     """Decode the tagged JSON encoding used in cases into Python values."""
     if isinstance(v, list):
@@ -86,6 +99,8 @@ def dec(v):
             return {_hashable(dec(x)) for x in v["v"]}
         if tag == "html":
             return HtmlObj(v["v"])
+        if tag == "strobj":
+            return StrObj(v["v"])
         if tag == "bytes":
             return v["v"].encode("latin-1")
         raise ValueError("unknown tag %r" % (tag,))
